@@ -15,6 +15,9 @@ P       (python, independent of the model) every reference of the view is resolv
         hard correspondence: Go accepted => the shipped-rule model accepts, unless the oracle also finds an
         unresolved reference (then it is a failing input, not a modelling question); model(published tables,
         repaired rules) and the oracle must name the same unresolved references on EVERY view.
+rate    `c18 raterule`: the rule a combo's rate key is validated with (RegimeDef.InCategoryRates), on a key alone, for every
+        published rate key and its look-alikes with an undefined FIRST `+` component (`bogus+standard`); Go == transcribed
+        rule; accepted => first component is a rate of the category in the published files.
 sweep   every valid example x every reference position (regime, addons, tags, combo category / rate / country,
         extension keys and values at every place, currencies, countries incl. addresses, tax ids, party regimes)
         x {every / a bounded sample of the OTHER DEFINED values of its kind, undefined values}.
@@ -167,8 +170,10 @@ class Tables:
             elif not cat:
                 out.add(("category", path, cat))
             if rate:
-                parts = rate.split("+")
-                if cd is None or not any(x.get("key") in parts for x in L(cd, "rates")):
+                # the rate a key names is its FIRST `+` component (free suffixes may follow: `exempt+reverse-charge`);
+                # a rate named in a later component (`bogus+standard`) does not make the key a rate of the category
+                first = rate.split("+", 1)[0]
+                if cd is None or not any(x.get("key") == first for x in L(cd, "rates")):
                     out.add(("rate", path, rate))
             for k, v in ext:
                 u = self.ext_unresolved(k, v)
@@ -337,7 +342,14 @@ def candidates(c, pools, kind, old, detail, quick):
         vs = [v for i, v in enumerate(vs) if v != old and v not in full and v not in vs[:i]]
         out += [(v, "undefined-variant") for v in (vs[:2] if quick else vs)]
     if kind == "rate" and old:
-        out.append((old + "+zz-unknown", "undefined-part"))     # Key.Has: one defined part is enough
+        out.append((old + "+zz-unknown", "undefined-part"))     # Key.HasPrefix: a defined FIRST part is enough (by design)
+        # ... but a defined part anywhere else is not: undefined word first, a later part of the key first
+        out.append(("bogus+" + old, "undefined-first-part"))
+        out.append(("zz-unknown+" + old + "+x", "undefined-first-part"))
+        ps = old.split("+")
+        full, _ = pools.values(kind, detail)
+        if len(ps) > 1 and ps[-1] not in full:
+            out.append(("+".join(ps[1:] + ps[:1]), "undefined-first-part"))     # `eqs+standard` for `standard+eqs`
     if kind == "ext-key" and old:
         out.append((old + "+zz", "undefined"))                  # a defined key with an undefined sub-key is not a defined key
     return out
@@ -448,6 +460,61 @@ def pay_keys_stream(c, examples):
         elif verdict == "panic" and shown < 3:
             shown += 1
             c.report("payment-means key `%s` at %s of %s makes the library panic" % (f, "/".join(map(str, pth)), name), {"example": name, "value": f})
+
+
+def rate_rule_stream(c, pub):
+    """the rule Combo.ValidateWithContext puts on a combo's rate key (RegimeDef.InCategoryRates), applied to a key ALONE:
+    in a document the calculation resolves the key first (CategoryDef.RateDef) and fails before validation is reached,
+    so the rule itself is only seen when a combo is validated without being calculated.
+    every published regime x category x rate key x {the key, + an undefined suffix, an undefined word first, a later
+    component first} + the recorded witness.  P (python, published tables): accepted => the key's FIRST component is a
+    rate of the category; correspondence: Go == transcribed rule over the in-code tables."""
+    cases = [("ES", "VAT", k, "corpus") for k in ("bogus+standard", "eqs+standard", "bogus+standard+x", "bogus", "standard+bogus",
+                                                  "standard+eqs", "exempt+reverse-charge", "", "standard+", "+standard")]
+    cases += [("QQ", "VAT", "standard", "no-regime"), ("QQ", "VAT", "", "no-regime"), ("ES", "QQ", "standard", "no-category"), ("ES", "QQ", "", "no-category")]
+    for code, r in sorted(pub.regimes.items()):
+        for cat in L(r, "categories"):
+            keys = [x.get("key") for x in L(cat, "rates")]
+            for k in keys:
+                ps = k.split("+")
+                cases.append((code, cat.get("code"), k, "defined"))
+                cases.append((code, cat.get("code"), k + "+zz-unknown", "defined-first-part"))
+                cases.append((code, cat.get("code"), "bogus+" + k, "undefined-first-part"))
+                cases.append((code, cat.get("code"), "zz-unknown+" + k + "+x", "undefined-first-part"))
+                if len(ps) > 1 and ps[-1] not in keys:
+                    cases.append((code, cat.get("code"), "+".join(ps[1:] + ps[:1]), "undefined-first-part"))
+            if not keys:
+                cases.append((code, cat.get("code"), "standard", "no-rates"))
+    lines = ["c18 raterule %s %s %s" % (w(cc), w(cat), w(k)) for cc, cat, k, _ in cases]
+    go, mo = run_go(lines), run_oracle(lines)
+    shown = {}
+    for (cc, cat, k, cls), ln, g, m in zip(cases, lines, go, mo):
+        gv, mv = parse_wire(g), parse_wire(m)
+        c.count("rate-rule/" + cls, 1, ln)
+        if is_err(gv) or is_err(mv) or len(mv) < 3:
+            c.report("rate-rule stream: `%s` -> implementation `%s`, model `%s`" % (ln, g, m), {"machinery": "c18 raterule", "case": ln}, no_input=True)
+            break
+        acc, m_code, m_pub, m_any = bool(gv[0]), bool(mv[0]), bool(mv[1]), bool(mv[2])
+        r = pub.regimes.get(cc)
+        cd = next((x for x in L(r, "categories") if x.get("code") == cat), None) if r is not None else None
+        resolves = (not k) or (cd is not None and any(x.get("key") == k.split("+", 1)[0] for x in L(cd, "rates")))
+        if m_pub != resolves and shown.get("oracle", 0) < 2:
+            shown["oracle"] = shown.get("oracle", 0) + 1
+            c.report("oracle disagreement on the rate-key rule: `%s %s %s` transcribed rule over the published tables %s, python oracle %s" % (cc, cat, k, m_pub, resolves),
+                     {"correspondence": "oracle:C18:rate-rule-model-vs-python", "case": ln}, no_input=True)
+        if acc and not resolves:
+            if shown.get("P", 0) < 3:
+                shown["P"] = shown.get("P", 0) + 1
+                c.report("the rate key `%s` passes the rate-key rule of %s %s (RegimeDef.InCategoryRates, the rule a combo's `rate` is validated with) "
+                         "although its first component `%s` is not a rate of that category in the published definitions" % (k, cc, cat, k.split("+", 1)[0]),
+                         {"case": ln, "call": "tax.RegimeDefFor(%r).InCategoryRates(%r).Validate(cbc.Key(%r))" % (cc, cat, k), "implementation": "accepted",
+                          "model_rule_after_repair": m_code, "model_rule_any_component": m_any,
+                          "clause": "a document that passes validation only references defined codes, keys and rates",
+                          "rerun": "echo '%s' | bin/vharness ; echo '%s' | bin/oracle" % (ln, ln)})
+        elif acc != m_code and shown.get("corr", 0) < 2:
+            shown["corr"] = shown.get("corr", 0) + 1
+            c.report("correspondence broken: rate-key rule on `%s %s %s`: implementation %s, transcribed rule %s" % (cc, cat, k, acc, m_code),
+                     {"correspondence": "corr:C18:rate-rule", "case": ln}, no_input=True)
 
 
 def load_examples():
@@ -717,12 +784,18 @@ def run(c):
     # failing inputs whose unresolved reference IS the replaced value are listed first
     c.violations.sort(key=lambda v: (v[2], not (isinstance(v[1], dict) and v[1].get("direct"))))
     pay_keys_stream(c, examples)
+    rate_rule_stream(c, pub)
     c.cov["rule"] = ("every example file of the repository that parses, calculates and validates (inputs and outputs; "
                      "examples/**, regimes/*/examples, addons/*/*/examples) x every reference position of its typed document "
                      "($regime, each $addons and $tags member, each combo's category, rate key and country override, each extension "
                      "key and value wherever an extension map occurs, each currency code, each ISO/tax country code incl. addresses, "
                      "tax ids and party regimes) x {the other defined values of that kind: all regimes and addons, a seeded sample "
-                     "of the others (quick) or all of them (thorough); undefined values; a defined rate key with an undefined `+` part}; "
+                     "of the others (quick) or all of them (thorough); undefined values; a defined rate key followed by an undefined `+` part "
+                     "(accepted by design); a defined rate key preceded by an undefined `+` part (`bogus+standard`, `zz-unknown+standard+x`, "
+                     "`eqs+standard`)}; "
+                     "plus the rate-key rule alone (RegimeDef.InCategoryRates on a key, no calculation before it): every published regime "
+                     "x category x rate key x {itself, + undefined suffix, undefined word first, later component first} and the recorded "
+                     "witness keys; "
                      "distinct non-trivial = distinct (example, position, old value, new value); verdict classes per "
                      "kind x class in coverage.verdicts")
     if not proved:
@@ -736,6 +809,11 @@ def run(c):
 def replay(path):
     r = json.load(open(path))["replay"]
     x = r.get("case", r)
+    if isinstance(x, str) and x.startswith("c18 raterule"):
+        build_harness()
+        print("implementation (accepted 1/0):                          ", run_go([x], shards=1)[0])
+        print("model (in-code, published, any-component rule as shipped):", run_oracle([x], shards=1)[0])
+        return 0
     if "document" not in x:
         print(json.dumps(r, indent=1, ensure_ascii=False))
         return 0
